@@ -16,7 +16,7 @@
 //! two observed payloads.  `abstract_run` below derives the views; in history mode it starts from the
 //! *observed* cache after the first real run (store listing, modules fetched).  Trusted: that
 //! abstraction, the tag table.
-use std::collections::{BTreeMap, BTreeSet, HashMap};
+use std::collections::{BTreeSet, HashMap};
 use std::sync::{Arc, Mutex};
 use rv_harness::rpkigen::*;
 use rv_harness::util::*;
@@ -248,13 +248,15 @@ fn incoming_keys(truth: &Truth) -> HashMap<String, usize> {
 }
 
 /// The views of one run (Coq `dyn`) and the cache after it as far as it is determined by what was served.
-fn abstract_run(truth: &Truth, cfg: &RunCfg, cache: &Cache, net: &Net, ids: &Ids, tags: &Tags) -> String {
+fn abstract_run(truth: &Truth, is_root: &BTreeSet<String>, cfg: &RunCfg, cache: &Cache, net: &Net, ids: &Ids, tags: &Tags) -> String {
     let stale_reject = cfg.stale == "reject";
     let inkeys = incoming_keys(truth);
     // trust anchors
     let mut ta_ok = Vec::new();
+    let mut root_key: HashMap<String, usize> = HashMap::new();   // root CA -> key of the TA certificate used
     for tal in &truth.tals {
         let mut oks = Vec::new();
+        let mut chosen = false;
         for u in &tal.uris {
             let n = u.certs.len();
             let copy: Option<usize> = if net.fetch_ok(&u.module) {
@@ -268,7 +270,12 @@ fn abstract_run(truth: &Truth, cfg: &RunCfg, cache: &Cache, net: &Net, ids: &Ids
                 Some(c) => Some(c),
                 None => cache.ta_stored.get(&u.uri).and_then(|s| u.certs[*s].as_ref()).filter(|c| c.decodes),
             };
-            oks.push(used.map(|c| c.key == tal.key && c.valid_now && c.sig_ok).unwrap_or(false));
+            let ok = used.map(|c| c.key == tal.key && c.valid_now && c.sig_ok).unwrap_or(false);
+            if ok && !chosen {
+                chosen = true;
+                if let Some(c) = used { if let Some(s) = &c.subject { root_key.insert(s.clone(), c.key); } }
+            }
+            oks.push(ok);
         }
         ta_ok.push(oks);
     }
@@ -283,7 +290,9 @@ fn abstract_run(truth: &Truth, cfg: &RunCfg, cache: &Cache, net: &Net, ids: &Ids
             }
         } else { cache.copy.get(&ca.id).cloned().flatten() };
         let stored = cache.stored.get(&ca.id).cloned();
-        let key_ok = inkeys.get(&ca.id).map(|k| *k == ca.key).unwrap_or(false);
+        // roots: the key of the TA certificate this run uses (if none is usable the point is not visited)
+        let key_ok = if is_root.contains(&ca.id) { root_key.get(&ca.id).map(|k| *k == ca.key).unwrap_or(true) }
+                     else { inkeys.get(&ca.id).map(|k| *k == ca.key).unwrap_or(false) };
         let collected = match &copy {
             None => "None".to_string(),
             Some(c) => {
@@ -381,11 +390,20 @@ fn run_world(spec: &RepoSpec, inp: &Input, step: usize, brk: Option<&Break>, ids
     let mut cache = Cache::default();
     if inp.mode == "history" {
         let first = world.run(&inp.cfg);
-        assert_eq!(first.result, "ok");
+        if first.result != "ok" {
+            // the fault-free first run failed as a whole: report it as this world's observation (never "ok")
+            let net = Net { step, r: &inp.r, brk };
+            let is_root: BTreeSet<String> = spec.tals.iter().flat_map(|t| t.uris.iter()).flat_map(|u| u.certs.iter().flatten())
+                .map(|c| c.ca.clone()).collect();
+            return RunResult { dyn_coq: abstract_run(truth, &is_root, &inp.cfg, &cache, &net, ids, tags), payload: vec![],
+                               result: format!("first run: {}", first.result), rejected_points: 0 }
+        }
         cache = cache_after(truth, &first, 0);
     }
     let net = Net { step, r: &inp.r, brk };
-    let dyn_coq = abstract_run(truth, &inp.cfg, &cache, &net, ids, tags);
+    let is_root: BTreeSet<String> = spec.tals.iter().flat_map(|t| t.uris.iter()).flat_map(|u| u.certs.iter().flatten())
+        .map(|c| c.ca.clone()).collect();
+    let dyn_coq = abstract_run(truth, &is_root, &inp.cfg, &cache, &net, ids, tags);
     let mut plan = ServePlan::step(step);
     let out = match brk {
         Some(Break::Unreachable) => { plan = plan.unreachable(&inp.r); world.serve(&plan).unwrap(); world.run(&inp.cfg) }
@@ -394,16 +412,30 @@ fn run_world(spec: &RepoSpec, inp: &Input, step: usize, brk: Option<&Break>, ids
             world.serve(&plan).unwrap(); world.run(&inp.cfg)
         }
         Some(b @ (Break::Exit { .. } | Break::Killed | Break::Partial | Break::Timeout)) => {
+            assert!(rsync_mode() != RsyncMode::InProcess, "this break needs RPKIGEN_RSYNC=self (stream cmd)");
             world.serve(&plan).unwrap();
             let w = wrapper_script(&world, &inp.r, b);
             let timeout = matches!(b, Break::Timeout);
-            world.run_with(&inp.cfg, |c| {
-                c.rsync_command = w.display().to_string();
-                if timeout { c.rsync_timeout = Some(std::time::Duration::from_secs(1)); }
-            })
+            let mut o;
+            let mut tries = 0;
+            loop {
+                o = world.run_with(&inp.cfg, |c| {
+                    c.rsync_command = w.display().to_string();
+                    if timeout { c.rsync_timeout = Some(std::time::Duration::from_secs(1)); }
+                });
+                tries += 1;
+                // "Text file busy": another thread forked while the script was open for writing; nothing ran yet
+                if !o.result.starts_with("engine:") || tries >= 5 { break }
+                std::thread::sleep(std::time::Duration::from_millis(50));
+            }
+            o
         }
         _ => { world.serve(&plan).unwrap(); world.run(&inp.cfg) }
     };
+    if std::env::var_os("C41_DEBUG").is_some() {
+        eprintln!("--- run brk={:?} result={} fetched={:?} rsync={:?}\n{}", brk, out.result, out.fetched, out.metrics.rsync, out.log.join("\n"));
+        if let Ok(t) = std::fs::read_to_string(world.dir.join("wrapper.sh")) { eprintln!("{}", t); }
+    }
     RunResult { dyn_coq, payload: payload_keys(&out.payload), result: out.result.clone(),
                 rejected_points: out.metrics.publication.rejected_points }
 }
@@ -607,11 +639,15 @@ fn gen(rng: &mut Rng, tier: &str) -> Vec<(String, Value)> {
     let repos4 = [modname(R1), modname(R2), modname(R3), modname(R4)];
 
     // 1. every whole-repository break x every repository x policy x mode
-    let whole: Vec<(&str, Break)> = vec![
-        ("unreachable", Break::Unreachable), ("empty", Break::Empty), ("exit12", Break::Exit { code: 12 }),
-        ("exit255", Break::Exit { code: 255 }), ("killed", Break::Killed), ("partial", Break::Partial),
+    // (breaks that need a real rsync process are generated in the stream `cmd`, which runs with RPKIGEN_RSYNC=self)
+    let cmd = cmd_stream();
+    let whole: Vec<(&str, Break)> = if cmd { vec![
+        ("exit12", Break::Exit { code: 12 }), ("exit255", Break::Exit { code: 255 }), ("killed", Break::Killed),
+        ("partial", Break::Partial), ("unreachable", Break::Unreachable),
+    ] } else { vec![
+        ("unreachable", Break::Unreachable), ("empty", Break::Empty),
         ("all-garbage", Break::All { fault: Fault::Garbage }), ("all-missing", Break::All { fault: Fault::Missing }),
-    ];
+    ] };
     for (wname, spec, repos) in [("w3", &w3, &repos3[..]), ("w4", &w4, &repos4[..])] {
         if wname == "w4" && !thorough { continue }
         for r in repos {
@@ -619,15 +655,20 @@ fn gen(rng: &mut Rng, tier: &str) -> Vec<(String, Value)> {
                 for (pn, cfg) in [("accept", &accept), ("reject", &reject)] {
                     for mode in ["fresh", "history"] {
                         if !thorough && pn == "accept" && mode == "history" && !matches!(b, Break::Unreachable | Break::Partial) { continue }
+                        if !thorough && cmd && matches!(b, Break::Unreachable | Break::Exit { code: 255 }) && pn == "accept" { continue }
                         out.push(case(format!("{}-{}-{}-{}", bn, pn, mode, wname), spec, r, cfg, mode, b.clone()));
                     }
                 }
             }
         }
     }
-    // rsync hanging until the timeout kills it (1 s each)
-    for r in &repos3 { out.push(case("timeout-reject-history".into(), &w3, r, &reject, "history", Break::Timeout)); }
-    if thorough { for r in &repos3 { out.push(case("timeout-accept-fresh".into(), &w3, r, &accept, "fresh", Break::Timeout)); } }
+    if cmd {
+        // rsync hanging until the timeout kills it (1 s each)
+        for r in &repos3 { out.push(case("timeout-reject-history".into(), &w3, r, &reject, "history", Break::Timeout)); }
+        if thorough { for r in &repos3 { out.push(case("timeout-accept-fresh".into(), &w3, r, &accept, "fresh", Break::Timeout)); } }
+        let _ = rng.next();
+        return out
+    }
     // 4 validation threads
     let par = RunCfg { validation_threads: 4, ..reject.clone() };
     for r in &repos3 { out.push(case("unreachable-reject-fresh-threads4".into(), &w3, r, &par, "fresh", Break::Unreachable)); }
@@ -685,7 +726,7 @@ fn gen(rng: &mut Rng, tier: &str) -> Vec<(String, Value)> {
             }
         }
         let inside: Vec<&(String, String, FaultAt)> = singles.iter().filter(|(_, rr, _)| *rr == r).collect();
-        let n = rng.range(1, 3) as usize;
+        let n = if inside.is_empty() { 0 } else { rng.range(1, 3) as usize };
         let mut faults: Vec<FaultAt> = Vec::new();
         for _ in 0..n {
             let f = rng.pick(&inside).2.clone();
@@ -699,13 +740,18 @@ fn gen(rng: &mut Rng, tier: &str) -> Vec<(String, Value)> {
             ..RunCfg::default()
         };
         let mode = if rng.chance(1, 2) { "history" } else { "fresh" };
-        out.push(case(format!("{}-{}", class, mode), &spec, &r, &cfg, mode, Break::Faults { faults }));
+        let brk = if faults.is_empty() { Break::All { fault: Fault::Garbage } } else { Break::Faults { faults } };
+        out.push(case(format!("{}-{}", class, mode), &spec, &r, &cfg, mode, brk));
     }
     out
 }
 
+fn cmd_stream() -> bool { std::env::var("C41_STREAM").map(|s| s == "cmd").unwrap_or(false) }
+
 fn main() {
     act_as_rsync_if_child();
-    let threads = std::env::var("C41_THREADS").ok().and_then(|s| s.parse().ok()).unwrap_or(8);
+    // the stream `cmd` needs fetches to go through a real process (the wrapper script around this binary)
+    if cmd_stream() { std::env::set_var("RPKIGEN_RSYNC", "self"); }
+    let threads = std::env::var("C41_THREADS").ok().and_then(|s| s.parse().ok()).unwrap_or(if cmd_stream() { 3 } else { 8 });
     drive_par(gen, run_case, threads);
 }
